@@ -22,7 +22,7 @@ def tla_value(v):
 
 
 CONST_KEYS = ["File", "Session", "MaxUid", "MaxLines", "MaxCommit", "MaxSteps", "Mode", "Alphabet",
-              "InitKind", "F0", "Dev"]
+              "InitKind", "F0", "BaseLines", "Dev"]
 
 
 def write_cfg(path, consts, spec, invariants=(), view="view", postcondition=None, constraint=None,
@@ -30,7 +30,7 @@ def write_cfg(path, consts, spec, invariants=(), view="view", postcondition=None
     with open(path, "w") as fh:
         fh.write("CONSTANTS\n")
         for k in const_keys:
-            fh.write("  %s = %s\n" % (k, tla_value(consts[k])))
+            fh.write("  %s = %s\n" % (k, tla_value(consts.get(k, 2) if k == "BaseLines" else consts[k])))
         fh.write("SPECIFICATION %s\n" % spec)
         if view:
             fh.write("VIEW %s\n" % view)
